@@ -160,8 +160,9 @@ pub fn profile(prop: Prop, thorough: bool) -> Profile {
             p.drop_panics = true;
         }
         Prop::C10 => {
-            p.weights = cat(&[MAP_BASIC, &scale(HANDLES, 1, 2), &[(G::Retain, 4), (G::DrainFilter, 2), (G::Reserve, 6), (G::TryReserve, 3), (G::ShrinkTo, 6), (G::ShrinkToFit, 4)]]);
+            p.weights = cat(&[MAP_BASIC, &scale(HANDLES, 1, 2), &[(G::Retain, 4), (G::DrainFilter, 2), (G::Reserve, 6), (G::TryReserve, 3), (G::ShrinkTo, 6), (G::ShrinkToFit, 4), (G::SInsert, 20), (G::SRemove, 6), (G::SRetain, 2), (G::SReserve, 3), (G::SShrinkTo, 2)]]);
             p.maps = 1;
+            p.sets = 1;
             p.max_len = 40;
             p.max_universe = 1024;
             p.long_runs = false;
@@ -179,7 +180,7 @@ pub fn profile(prop: Prop, thorough: bool) -> Profile {
             p.weights = cat(&[&scale(MAP_BASIC, 1, 2), &scale(HANDLES, 1, 4), MOVERS, &scale(SET_BASIC, 1, 2), &[(G::SerdeMap, 25), (G::SerdeSet, 40)]]);
             p.maps = 1;
             p.sets = 3;
-            p.elem = [1, 0, 0];
+            p.elem = [12, 0, 1];
             p.keep_pct = 85;
         }
         Prop::C11 => {
